@@ -50,6 +50,11 @@ THEOREMS = [
     "FaxVerif.C17.tempdir_released",
     "FaxVerif.C17.machine",
     "FaxVerif.C17.spec_holds",
+    "FaxVerif.C17.step_ignores_shared_state",
+    "FaxVerif.C17.sequence_independent",
+    "FaxVerif.C17.sequence_refused",
+    "FaxVerif.C17.spec_sequence",
+    "FaxVerif.C17.image_sequence",
     "FaxVerif.C17.spec_generated",
     "FaxVerif.C17.generated_recognised",
     "FaxVerif.C17.generated_backends_wellformed",
@@ -63,8 +68,11 @@ RULE = (
     "unknown metadata type) x container outcome (0-4 chunks of stdout/stderr incl. multi-byte UTF-8, Latin-1 bytes and "
     "multi-byte characters split over two chunks; success, "
     "DockerException or another exception raised by docker.run itself or after chunk k; result file written or not). "
-    "A small grid (file-list kind x metadata shape x outcome kind) is enumerated, the rest is drawn from VERIF_SEED. "
-    "A case is non-trivial when the constructor accepts it and it has >=2 files or >=1 docker metadata or a "
+    "About 30% of the drawn cases run 1-2 FURTHER executions on the same dataset object (own metadata, own outcome; "
+    "biased to 'docker metadata, then none'), the Spec being applied to every execution with its own query. "
+    "A small grid (file-list kind x metadata shape x outcome kind; all ordered pairs of metadata shapes as two executions "
+    "on one dataset object) is enumerated, the rest is drawn from VERIF_SEED. "
+    "A case is non-trivial when the constructor accepts it and it has >=2 executions or >=2 files or >=1 docker metadata or a "
     "non-success outcome; distinct = distinct case description."
 )
 TRUSTED_BASE = [
@@ -249,15 +257,24 @@ def translate_backend(repo: Path, key: str, rel: str, unrec: List[str]) -> Dict[
         names = [a.arg for a in init.args.args]
         if names != ["self", "files", "docker_image", "docker_tag", "output_directory"]:
             raise Unrec(f"{cls.name}.__init__ parameters are {names}")
+        # the defaults first: they are what they are, whatever else the body does
+        row["defaultImage"] = _const_str(d["docker_image"], f"{cls.name} docker_image default")
+        row["defaultTag"] = _const_str(d["docker_tag"], f"{cls.name} docker_tag default")
         sargs = _super_init_args(init, f"{cls.name}.__init__")
         if [ast.unparse(a) for a in sargs] != ["files", "docker_image", "docker_tag", "output_directory"]:
             raise Unrec(f"{cls.name}.__init__ does not forward (files, docker_image, docker_tag, output_directory) unchanged")
-        if len(_real_body(init)) != 1:
-            raise Unrec(f"{cls.name}.__init__ does more than forwarding to LocalDataset.__init__")
+        for st in _real_body(init):
+            # besides the forwarding call only `self.<attr> = <literal>` (e.g. a cache slot) is understood
+            is_super = isinstance(st, ast.Expr) and isinstance(st.value, ast.Call) and "super()" in ast.unparse(st.value.func)
+            tgt = st.targets[0] if isinstance(st, ast.Assign) and len(st.targets) == 1 else (st.target if isinstance(st, ast.AnnAssign) else None)
+            is_slot = (
+                tgt is not None and isinstance(tgt, ast.Attribute) and isinstance(tgt.value, ast.Name) and tgt.value.id == "self"
+                and isinstance(getattr(st, "value", None), ast.Constant)
+            )
+            if not (is_super or is_slot):
+                raise Unrec(f"{cls.name}.__init__ does more than forwarding to LocalDataset.__init__: {ast.unparse(st)[:120]}")
         if not (isinstance(d["output_directory"], ast.Constant) and d["output_directory"].value is None):
             raise Unrec(f"{cls.name}.__init__ output_directory default is not None")
-        row["defaultImage"] = _const_str(d["docker_image"], f"{cls.name} docker_image default")
-        row["defaultTag"] = _const_str(d["docker_tag"], f"{cls.name} docker_tag default")
 
     attempt("constructor", ctor)
 
@@ -278,15 +295,63 @@ def translate_backend(repo: Path, key: str, rel: str, unrec: List[str]) -> Dict[
 
     attempt("cache volumes", cache)
 
+    def executor_classes(fn: ast.FunctionDef) -> set:
+        """Which executor class(es) the method can return: every `return` is `<Class>()` or `self.<attr>`, where every
+        assignment to `self.<attr>` anywhere in the dataset class is `<Class>()` or `None` (a cached executor)."""
+        def ctor_name(v: ast.AST) -> Optional[str]:
+            if isinstance(v, ast.Call) and isinstance(v.func, ast.Name) and not v.args and not v.keywords:
+                return v.func.id
+            return None
+
+        def self_attr(v: ast.AST) -> Optional[str]:
+            if isinstance(v, ast.Attribute) and isinstance(v.value, ast.Name) and v.value.id == "self":
+                return v.attr
+            return None
+
+        names: set = set()
+        rets = [n for n in ast.walk(fn) if isinstance(n, ast.Return)]
+        if not rets:
+            raise Unrec(f"{cls.name}.get_executor_obj has no return")
+        for r in rets:
+            if r.value is None:
+                raise Unrec(f"{cls.name}.get_executor_obj has a bare return")
+            c = ctor_name(r.value)
+            if c is not None:
+                names.add(c)
+                continue
+            attr = self_attr(r.value)
+            if attr is None:
+                raise Unrec(f"{cls.name}.get_executor_obj returns something that is neither <executor class>() nor self.<attr>: {ast.unparse(r.value)}")
+            found = False
+            for n in ast.walk(cls):
+                targets, value = [], None
+                if isinstance(n, ast.Assign):
+                    targets, value = n.targets, n.value
+                elif isinstance(n, ast.AnnAssign) and n.value is not None:
+                    targets, value = [n.target], n.value
+                for t in targets:
+                    if self_attr(t) == attr:
+                        if isinstance(value, ast.Constant) and value.value is None:
+                            continue
+                        c = ctor_name(value)
+                        if c is None:
+                            raise Unrec(f"{cls.name}: self.{attr} is assigned something that is not <executor class>(): {ast.unparse(value)}")
+                        names.add(c)
+                        found = True
+            if not found:
+                raise Unrec(f"{cls.name}: self.{attr} is returned by get_executor_obj but never assigned an executor")
+        return names
+
     def exe():
-        ret = _single_return(_find_method(cls, "get_executor_obj"), f"{cls.name}.get_executor_obj")
-        if not (isinstance(ret, ast.Call) and isinstance(ret.func, ast.Name) and not ret.args and not ret.keywords):
-            raise Unrec(f"{cls.name}.get_executor_obj does not return <executor class>()")
-        row["executorClass"] = ret.func.id
-        mod = _imports(tree).get(ret.func.id)
+        names = executor_classes(_find_method(cls, "get_executor_obj"))
+        if len(names) != 1:
+            raise Unrec(f"{cls.name}.get_executor_obj can return several executor classes: {sorted(names)}")
+        ename = names.pop()
+        row["executorClass"] = ename
+        mod = _imports(tree).get(ename)
         if mod is None:
-            raise Unrec(f"{rel}: {ret.func.id} is not imported with `from ... import`")
-        row.update(translate_executor(repo, mod, ret.func.id))
+            raise Unrec(f"{rel}: {ename} is not imported with `from ... import`")
+        row.update(translate_executor(repo, mod, ename))
         row.update(translate_runner(repo, row["templateDir"], row["runner"]))
 
     attempt("executor", exe)
@@ -411,8 +476,32 @@ def table() -> Dict[str, Any]:
     return _TABLE
 
 
+_RUN_ROWS: Optional[Dict[str, Dict[str, Any]]] = None
+
+
 def rows_by_key() -> Dict[str, Dict[str, Any]]:
-    return {r["key"]: r for r in table()["rows"]}
+    """Rows used to RUN cases. Where the static translation of a row failed (the obligation over the generated table is
+    then broken anyway) the missing run-time facts are read off the live class, so that the failing-input search can
+    still execute that backend."""
+    global _RUN_ROWS
+    if _RUN_ROWS is None:
+        rows = {r["key"]: dict(r) for r in table()["rows"]}
+        for r in rows.values():
+            if r["datasetClass"] != UNREC and (UNREC in (r["runner"], r["runnerResultName"]) or not r["fileNames"]):
+                try:
+                    import importlib
+
+                    sys.path.insert(0, str(Path(__file__).resolve().parent.parent / "c17_stubs"))
+                    cls = getattr(importlib.import_module(r["module"]), r["datasetClass"])
+                    exe = cls(Path(__file__)).get_executor_obj()
+                    r["runner"], r["fileNames"] = exe._runner_name, list(exe._file_names)
+                    if r["runnerResultName"] == UNREC:
+                        r["runnerResultName"] = table()["resultFileName"]
+                    r["live_fallback"] = True
+                except Exception:
+                    pass
+        _RUN_ROWS = rows
+    return _RUN_ROWS
 
 
 def translate(ctx):
@@ -545,7 +634,7 @@ def gen_outcome(rng) -> Dict[str, Any]:
 
 def usable_backends() -> List[str]:
     """Backends whose row the translator could read far enough to run cases on them."""
-    return [r["key"] for r in table()["rows"] if UNREC not in (r["datasetClass"], r["runner"]) and r["fileNames"]]
+    return [r["key"] for r in rows_by_key().values() if UNREC not in (r["datasetClass"], r["runner"]) and r["fileNames"]]
 
 
 def gen_case(rng) -> Dict[str, Any]:
@@ -559,10 +648,19 @@ def gen_case(rng) -> Dict[str, Any]:
     r = rng.random()
     outdir = None if r < 0.3 else ("{B}/out" if r < 0.85 else ("{B}/out/" if r < 0.9 else ("{B}//out/." if r < 0.97 else "{B}/nope")))
     before, after = gen_mds(rng)
-    return {
+    case = {
         "backend": rng.choice(usable_backends()), "files": files, "form": rng.choice(forms), "cwd": cwd, "image": image, "tag": tag,
         "outdir": outdir, "mds_before": before, "mds_after": after, "ttree": rng.random() < 0.3, "outcome": gen_outcome(rng),
     }
+    if rng.random() < 0.3:  # further executions on the same dataset object
+        more = []
+        for _ in range(rng.choice([1, 1, 2])):
+            b, a = gen_mds(rng)
+            if rng.random() < 0.4:  # the interesting shape: no docker metadata after a query that had some
+                b, a = [m for m in b if m.get("metadata_type") != "docker"], [m for m in a if m.get("metadata_type") != "docker"]
+            more.append({"mds_before": b, "mds_after": a, "ttree": rng.random() < 0.3, "outcome": gen_outcome(rng)})
+        case["more"] = more
+    return case
 
 
 def grid_cases(tier: str) -> List[Dict[str, Any]]:
@@ -604,6 +702,27 @@ def grid_cases(tier: str) -> List[Dict[str, Any]]:
                         "tag": None if i % 3 else "v1", "outdir": [None, "{B}/out"][i % 2], "mds_before": copy.deepcopy(before),
                         "mds_after": copy.deepcopy(after), "ttree": False, "outcome": copy.deepcopy(oc),
                     })
+                i += 1
+    # sequences on one dataset object: every ordered pair of metadata shapes, the first container succeeding or
+    # failing; in thorough also triples with a failing container in the middle
+    ok = {"chunks": ch[:1], "ending": "success", "at_call": False, "write_result": True}
+    bad = {"chunks": ch[:2], "ending": "docker_error", "at_call": False, "write_result": True}
+
+    def step(shape, oc):
+        return {"mds_before": copy.deepcopy(shape[0]), "mds_after": copy.deepcopy(shape[1]), "ttree": False, "outcome": copy.deepcopy(oc)}
+
+    for m1 in md_shapes:
+        for m2 in md_shapes:
+            for first in (ok, bad):
+                bks = ub if tier == "thorough" else [ub[i % len(ub)]]
+                for b in bks:
+                    c = {"backend": b, "files": ["{B}/d0/a.root", "{B}/d0/b.root"], "form": "list_path", "cwd": "", "image": None if i % 2 else "my/img",
+                         "tag": None if i % 2 else "v1", "outdir": [None, "{B}/out"][i % 2], **step(m1, first), "more": [step(m2, ok)]}
+                    cases.append(c)
+                    if tier == "thorough":
+                        c3 = copy.deepcopy(c)
+                        c3["more"] = [step(m2, bad), step(([], []), ok)]
+                        cases.append(c3)
                 i += 1
     return cases
 
@@ -654,20 +773,30 @@ def canon_obs(o: Dict[str, Any]) -> Dict[str, Any]:
 
 
 def evaluate(ctx, cases: List[Dict[str, Any]]) -> List[Dict[str, Any]]:
-    """Implementation + model + Spec-on-implementation for every case."""
+    """Implementation + model + Spec-on-implementation for every case (= every execution of every sequence)."""
     results = run_impl(cases)
     crashes = [r for r in results if "crash" in r]
     if crashes:
         raise vlib.InternalError("harness crashed while running a case: " + crashes[0]["crash"])
-    reqs = []
+    reqs, where = [], []
     for r in results:
-        mi = r["model_inputs"]
-        reqs.append({"op": "run", **mi})
-        reqs.append({"op": "spec", **mi, "obs": r["obs"]})
+        where.append((len(reqs), len(r["steps"])))
+        reqs.append({"op": "runseq", **r["model_inputs"], "more": r["planned_steps"][1:]})
+        for st in r["steps"]:  # the Spec of THIS execution's query/outcome on THIS execution's observation
+            reqs.append({"op": "spec", **st["model_inputs"], "obs": st["obs"]})
     ans = ctx.driver(DRIVER, reqs)
     out = []
-    for i, (case, r) in enumerate(zip(cases, results)):
-        out.append({"case": case, "impl": r, "model": ans[2 * i], "spec": ans[2 * i + 1]})
+    for case, r, (at, n) in zip(cases, results, where):
+        m, specs = ans[at], ans[at + 1: at + 1 + n]
+        if "bad" in m or any("bad" in x for x in specs):
+            bad = next(x["bad"] for x in [m] + specs if "bad" in x)
+            out.append({"case": case, "impl": r, "model": {"bad": bad}, "spec": {"bad": bad}})
+            continue
+        failed = [f"execution{k}:{c}" if n > 1 else c for k, x in enumerate(specs) for c in x.get("failed", [])]
+        out.append({
+            "case": case, "impl": r, "model": {"obs_seq": m["obs"]},
+            "spec": {"holds": all(x.get("holds", False) for x in specs), "failed": failed},
+        })
     return out
 
 
@@ -685,13 +814,14 @@ def nontrivial(case: Dict[str, Any], e: Dict[str, Any]) -> bool:
     if e["impl"]["obs"]["ctorFailed"]:
         return False
     nd = sum(1 for m in case["mds_before"] + case["mds_after"] if m.get("metadata_type") == "docker")
-    return len(case["files"]) >= 2 or nd >= 1 or case["outcome"]["ending"] != "success" or not case["outcome"]["write_result"]
+    return bool(case.get("more")) or len(case["files"]) >= 2 or nd >= 1 or case["outcome"]["ending"] != "success" or not case["outcome"]["write_result"]
 
 
 HOW = (
     "sys.path[:0]=['/verif/tools/c17_stubs','/repo']; build the dataset/query of `case` ({B} = a fresh directory laid out as "
     "tools/c17_harness/impl.py LAYOUT_*), script python_on_whales.verif_control with case['outcome'], run "
-    "asyncio.run(query.value_async()); or: ./check C17 --replay <this file>"
+    "asyncio.run(query.value_async()); then, ON THE SAME DATASET OBJECT, the queries/outcomes of case['more'] in order; "
+    "or: ./check C17 --replay <this file>"
 )
 
 
@@ -708,6 +838,15 @@ def judge(ctx, stream: str, e: Dict[str, Any], known_key: Optional[str] = None) 
     ctx.count(f"docker-md:{sum(1 for x in r['model_inputs']['mds'] if x['docker'])}")
     ctx.count(f"container:{case['outcome']['ending']}" + ("@call" if case["outcome"].get("at_call") else f"@chunk{len(case['outcome']['chunks'])}" if case["outcome"]["ending"] != "success" else ""))
     ctx.count("calls:%d" % len(ob["calls"]))
+    ctx.count("executions-on-one-dataset:%d" % len(r["planned_steps"]))
+    if len(r["planned_steps"]) > 1:
+        imgs = [next((x["image"] for x in st["mds"] if x["docker"] and x["image"]), None) for st in r["planned_steps"]]
+        if any(a is not None and b is None for a, b in zip(imgs, imgs[1:])):
+            ctx.count("sequence:docker-md-then-none")
+        if any(a is not None and b is not None and a != b for a, b in zip(imgs, imgs[1:])):
+            ctx.count("sequence:image-then-other-image")
+        if any(st["outcome"]["ending"] != "success" for st in r["planned_steps"][:-1]):
+            ctx.count("sequence:failure-before-last")
 
     def _undecodable(t: str) -> bool:
         try:
@@ -718,20 +857,23 @@ def judge(ctx, stream: str, e: Dict[str, Any], known_key: Optional[str] = None) 
 
     if any(_undecodable(t) for _, t in case["outcome"].get("chunks", [])):
         ctx.count("output:has-non-utf8-chunk")
-    ctx.case(case, nontrivial(case, e), {"case": case, "implementation": ob, "model_kinds": m.get("kinds")})
+    ctx.case(case, nontrivial(case, e), {"case": case, "implementation": [st["obs"] for st in r["steps"]]})
     held = bool(s.get("holds", False))
     if not held:
         ctx.violation(
             key=known_key or case_key(case),
             what="local docker execution violates clause(s) " + ",".join(s.get("failed", [])) + " of the C17 specification",
             case=case,
-            observed={"observation": ob, "info": r["info"], "failed_clauses": s.get("failed")},
+            observed={"observations": [st["obs"] for st in r["steps"]], "info": [st["info"] for st in r["steps"]], "failed_clauses": s.get("failed")},
             how=HOW,
         )
-    cm, ci = canon_obs(m["obs"]), canon_obs(ob)
+    cm, ci = [canon_obs(x) for x in m["obs_seq"]], [canon_obs(st["obs"]) for st in r["steps"]]
     if cm != ci:
-        diff = {k: {"model": cm[k], "implementation": ci[k]} for k in cm if cm[k] != ci.get(k)}
-        ctx.disagreement("execute_result_async", case, diff, {"info": r["info"]})
+        if len(cm) != len(ci):
+            diff: Any = {"executions": {"model": len(cm), "implementation": len(ci)}}
+        else:
+            diff = {f"execution{i}": {k: {"model": a[k], "implementation": b[k]} for k in a if a[k] != b.get(k)} for i, (a, b) in enumerate(zip(cm, ci)) if a != b}
+        ctx.disagreement("execute_result_async", case, diff, {"info": [st["info"] for st in r["steps"]]})
     return held
 
 
@@ -870,8 +1012,11 @@ def run(ctx):
     check_table(ctx)
     ctx.extra_cov["exhaustive"] = False
     ctx.extra_cov["exhaustive_part"] = (
-        ("grid of 6 file-list shapes x 6 metadata shapes x 9 container outcomes x 3 backends" if ctx.tier == "thorough"
-         else "grid of 3 file-list shapes x 6 metadata shapes x 5 container outcomes (backend rotating)")
+        ("grid of 6 file-list shapes x 6 metadata shapes x 9 container outcomes x 3 backends; sequences on one dataset object: "
+         "all 36 ordered pairs of metadata shapes x first container ok/failing x 3 backends, and the same as triples with a failing middle execution"
+         if ctx.tier == "thorough"
+         else "grid of 3 file-list shapes x 6 metadata shapes x 5 container outcomes (backend rotating); sequences on one dataset "
+         "object: all 36 ordered pairs of metadata shapes x first container ok/failing (backend rotating)")
     )
     ctx.extra_cov["defect_exclusions"] = []
 
@@ -906,6 +1051,26 @@ def simpler(case: Dict[str, Any]) -> List[Dict[str, Any]]:
         w(outcome={**oc, "write_result": True})
     if oc.get("at_call"):
         w(outcome={**oc, "at_call": False})
+    more = case.get("more", [])
+    if more:
+        for i in range(len(more)):
+            w(more=more[:i] + more[i + 1:])
+        first = more[0]
+        w(mds_before=first.get("mds_before", []), mds_after=first.get("mds_after", []), ttree=first.get("ttree", False),
+          outcome=first["outcome"], more=more[1:])
+        for i, st in enumerate(more):
+            def ws(**kw):
+                w(more=more[:i] + [{**st, **kw}] + more[i + 1:])
+            for k in ("mds_before", "mds_after"):
+                for j in range(len(st.get(k, []))):
+                    ws(**{k: st[k][:j] + st[k][j + 1:]})
+            so = st["outcome"]
+            if so["chunks"]:
+                ws(outcome={**so, "chunks": []})
+            if so["ending"] != "success" or so.get("at_call") or not so["write_result"]:
+                ws(outcome={**so, "ending": "success", "at_call": False, "write_result": True})
+            if st.get("ttree"):
+                ws(ttree=False)
     w(image=None, tag=None)
     w(outdir="{B}/out")
     w(ttree=False)
@@ -943,7 +1108,7 @@ def as_violation(best: Dict[str, Any]) -> Dict[str, Any]:
         "key": case_key(best["case"]),
         "what": "local docker execution violates clause(s) " + ",".join(best["spec"].get("failed", [])) + " of the C17 specification",
         "case": best["case"],
-        "observed": {"observation": best["impl"]["obs"], "info": best["impl"]["info"], "failed_clauses": best["spec"].get("failed")},
+        "observed": {"observations": [st["obs"] for st in best["impl"]["steps"]], "info": [st["info"] for st in best["impl"]["steps"]], "failed_clauses": best["spec"].get("failed")},
         "replay_how": HOW,
     }
 
@@ -971,9 +1136,10 @@ def replay(ctx, rep) -> int:
         return 1 if len(ctx.violations) > before else 0
     e = evaluate(ctx, [case])[0]
     print("case:", json.dumps(case))
-    print("implementation observed:", json.dumps(e["impl"]["obs"]))
-    print("info:", json.dumps(e["impl"]["info"]))
-    print("model observes:", json.dumps(e["model"].get("obs")))
+    for k, st in enumerate(e["impl"]["steps"]):
+        print(f"execution {k}: implementation observed:", json.dumps(st["obs"]))
+        print(f"execution {k}: info:", json.dumps(st["info"]))
+    print("model observes:", json.dumps(e["model"].get("obs_seq")))
     print("spec on the implementation:", e["spec"])
     return 0 if e["spec"].get("holds") else 1
 
@@ -988,9 +1154,12 @@ LEVEL_TEXT = (
     "/data plus the backend's cache volumes (per-backend facts regenerated from the source on every run); any container "
     "failure or missing result file is an error (the container's own exception) with nothing returned; valid inputs with "
     "a succeeding container that leaves its result always return the copied file; what the container prints (valid UTF-8 "
-    "or not) never changes the outcome; a result is returned only when everything went well; the temporary directory is created once and removed on every path, and every step happens while it exists. "
+    "or not) never changes the outcome; any number of executions on one dataset object, started in any state of the dict "
+    "shared between executors, behave as independent single executions (image of execution i = query i's docker metadata, "
+    "else image:tag); a result is returned only when everything went well; the temporary directory is created once and removed on every path, and every step happens while it exists. "
     "The model is tied to the code on every run by executing the real constructor and the real execute_result_async "
-    "(asyncio) with a scripted stand-in python_on_whales on a grid plus seeded random cases; the decidable Spec is also "
+    "(asyncio) with a scripted stand-in python_on_whales on a grid plus seeded random cases, single executions and "
+    "sequences of 2-3 executions on one dataset object; the decidable Spec is also "
     "evaluated on the implementation's own observations."
 )
 LEVEL_NOTE = (
